@@ -46,6 +46,66 @@ pub fn check_stream(case: &StreamCase) -> Outcome {
         out.viol("rule:last-block-flag", "STREAMINFO is the only block but is not flagged last".to_string());
         return out;
     }
+    // the same stream with extra metadata blocks appended one by one, and / or serialised right after a
+    // write into a user sink that failed half-way: still well-formed, same audio
+    let seed = case.inp.seed;
+    let nmeta = ((seed >> 3) % 6) as usize % 5;
+    let poison = seed % 3 == 0;
+    if nmeta > 0 || poison {
+        let Ok((mut s2, _)) = encode_case(case, &run.samples) else {
+            out.class("skipped:variant-encode-failed");
+            return out;
+        };
+        for i in 0..nmeta {
+            let tag = 1 + ((seed >> 8) as usize + 31 * i) % 126;
+            let len = ((seed >> 16) as usize + 7 * i) % 40;
+            if let Ok(m) = flacenc::component::MetadataBlockData::new_unknown(tag as u8, &vec![0xA5u8; len]) {
+                s2.add_metadata_block(m);
+            }
+        }
+        let limit = enc::sane_bits(run.samples.len() + 4096, case.inp.bps);
+        let r = crate::util::catch(|| {
+            if poison {
+                use flacenc::component::BitRepr;
+                let mut probe = crate::oracle::bits::MinimalSink::new();
+                if s2.write(&mut probe).is_ok() && probe.ops >= 2 {
+                    let mut failing = crate::oracle::bits::MinimalSink::failing_at((seed >> 5) as usize % probe.ops);
+                    let _ = s2.write(&mut failing);
+                }
+            }
+            enc::stream_bytes(&s2, limit)
+        });
+        out.class(format!("extra-metadata-blocks:{nmeta}"));
+        if poison {
+            out.class("written-after-a-failed-write");
+        }
+        match r {
+            Ok(Ok(b2)) => {
+                let t2 = refdec::decode(&b2, Some(case.cfg.block_size));
+                let what = format!("{nmeta} extra metadata block(s), after a failed write: {poison}; input {} block {}", case.inp.describe(), case.cfg.block_size);
+                if let Some(f) = &t2.fatal {
+                    out.viol(format!("malformed-variant:{}", normalise(f)), format!("strict reader stops: {f}; {what}"));
+                    return out;
+                }
+                if let Some(v) = t2.violations.iter().find(|v| !v.starts_with("STREAMINFO min block size") && !v.starts_with("STREAMINFO max block size")) {
+                    out.viol(format!("rule-variant:{}", normalise(v)), format!("{v}; {what}"));
+                    return out;
+                }
+                if t2.other_blocks.len() != nmeta || t2.samples != tr.samples {
+                    out.viol("variant-content-differs", format!("{} metadata blocks read, audio equal: {}; {what}", t2.other_blocks.len(), t2.samples == tr.samples));
+                    return out;
+                }
+            }
+            Ok(Err(e)) => {
+                out.viol("variant-write-error", e);
+                return out;
+            }
+            Err(p) => {
+                out.viol(format!("variant-{}", normalise(&p.sig())), format!("{} at {}", p.msg, p.loc));
+                return out;
+            }
+        }
+    }
     // frame-code classes
     for f in &tr.frames {
         out.class(format!("bs-code:{}", f.bs_code));
@@ -297,7 +357,7 @@ fn oracle_selftest(ctx: &Ctx) {
 pub fn run(ctx: &Ctx) {
     oracle_selftest(ctx);
     ctx.rule(
-        "(a) generated streams: strict RFC 9639 reader (harness' own) must report zero rule violations; non-trivial = >= 2 frames and >= 1 predictive subframe; \
+        "(a) generated streams, each also re-serialised with 1..4 unknown metadata blocks appended one at a time and / or right after a write into a user sink that failed half-way: strict RFC 9639 reader (harness' own) must report zero rule violations, the expected number of metadata blocks and the same audio; non-trivial = >= 2 frames and >= 1 predictive subframe; \
          (b) finite header code spaces enumerated through encode_fixed_size_frame / FrameHeader::new: every block length 1..=32767, every sample rate 1..=96000 (both exhaustive), frame numbers: quick = all values within +-64 of each UTF-8 length boundary plus a stratified 2^20 sample, thorough = all 2^31; every enumerated value is distinct and counts as non-trivial",
     );
     ctx.assume("STREAMINFO block-size bound rules are checked under C04, not here");
